@@ -70,6 +70,40 @@ package align
 //@   loop 1
 //@     invariant idx >= 0 && ok == has(sb.seqmap, tmpname) && (idx == 0 ==> tmpname == name) && (idx > 0 ==> has(sb.seqmap, name))
 
+// ---- in-place renames keep the name index in step ----
+
+//@ func (*seqbag).reindex
+//@   props C01
+//@   requires sb != nil && rowsok(sb)
+//@   ensures sb.seqmap != nil && fresh(sb.seqmap) && idxkeys(sb)
+//@   ensures uniq(sb) ==> idxrows(sb) && len(sb.seqmap) == len(sb.seqs)
+//@   ensures forall r :: 0 <= r && r < nrows(sb) ==> has(sb.seqmap, rowname(sb, r))
+//@   modifies sb.seqmap
+//@   loop 1
+//@     invariant sb.seqmap != nil && fresh(sb.seqmap)
+//@     invariant forall r :: 0 <= r && r < $i ==> has(sb.seqmap, rowname(sb, r))
+//@     invariant forall k string :: has(sb.seqmap, k) ==> exists r :: 0 <= r && r < $i && sb.seqs[r] == sb.seqmap[k] && sb.seqs[r].name == k
+//@     invariant uniq(sb) ==> len(sb.seqmap) == $i && (forall r :: 0 <= r && r < $i ==> sb.seqmap[rowname(sb, r)] == row(sb, r))
+//@     decreases nrows(sb) - $i
+
+// Rename: every row whose name is a key of the map takes the mapped name; rows, order and residues are untouched;
+// the bag stays well-formed (index included) unless the caller maps two rows to the same name
+//@ func (*seqbag).Rename
+//@   props C01
+//@   requires wf(sb)
+//@   ensures nrows(sb) == old(nrows(sb)) && (forall r :: 0 <= r && r < nrows(sb) ==> row(sb, r) == old(row(sb, r)) && sameslice(row(sb, r).sequence, old(row(sb, r).sequence)))
+//@   ensures forall r :: 0 <= r && r < nrows(sb) ==> rowname(sb, r) == (has(namemap, old(rowname(sb, r))) ? namemap[old(rowname(sb, r))] : old(rowname(sb, r)))
+//@   ensures uniq(sb) ==> wf(sb)
+//@   ensures sb.alphabet == old(sb.alphabet)
+//@   modifies sb.seqmap, field(seq.name)
+//@   loop 1
+//@     modifies field(seq.name)
+//@     invariant 0 <= seq && seq <= nrows(sb) && sb != nil && rowsok(sb)
+//@     invariant forall r1, r2 :: 0 <= r1 && r1 < r2 && r2 < nrows(sb) ==> row(sb, r1) != row(sb, r2)
+//@     invariant forall r :: 0 <= r && r < seq ==> rowname(sb, r) == (has(namemap, old(rowname(sb, r))) ? namemap[old(rowname(sb, r))] : old(rowname(sb, r)))
+//@     invariant forall r :: seq <= r && r < nrows(sb) ==> rowname(sb, r) == old(rowname(sb, r))
+//@     decreases nrows(sb) - seq
+
 // FilterLength: a row is kept iff its length is within both bounds (a negative bound is no bound)
 //@ pure func flkeep(sb *seqbag, min int, max int, r int) bool = (min < 0 || rowlen(sb, r) >= min) && (max < 0 || rowlen(sb, r) <= max)
 //@ pure func flrank(sb *seqbag, min int, max int, n int) int = (n <= 0 ? 0 : flrank(sb, min, max, n-1) + (flkeep(sb, min, max, n-1) ? 1 : 0))
